@@ -61,8 +61,8 @@ let check_one path =
       let un = if v then [] else undercounted rd h in
       let ov = if v then [] else overcounted rd h in
       let t1 = tables_ok rd h true and t0 = tables_ok rd h false in
-      Printf.printf "%s supported=1 valid=%d safe=%d tables_strict=%d tables=%d leaked=%s under=%s over=%s cb=%s ro=%s size=%s l1=%s/%s rt=%s/%s v=%s\n"
-        path (if v then 1 else 0) (if s then 1 else 0) (if t1 then 1 else 0) (if t0 then 1 else 0)
+      Printf.printf "%s supported=1 valid=%d safe=%d safe_sl1=%d tables_strict=%d tables=%d leaked=%s under=%s over=%s cb=%s ro=%s size=%s l1=%s/%s rt=%s/%s v=%s\n"
+        path (if v then 1 else 0) (if s then 1 else 0) (if safeb_short_l1 rd h then 1 else 0) (if t1 then 1 else 0) (if t0 then 1 else 0)
         (list_str lk) (list_str un) (list_str ov)
         (string_of_n h.h_cb) (string_of_n h.h_ro) (string_of_n h.h_size)
         (string_of_n h.h_l1_off) (string_of_n h.h_l1_size) (string_of_n h.h_rt_off) (string_of_n h.h_rt_clusters)
@@ -239,6 +239,29 @@ let dev_mode script =
   done with End_of_file -> ());
   close_in ic
 
+
+(* ---- discipline check of a cell-level request log (coq/Model/Crash.v, theorem disciplined_all_crash_states_safe) *)
+let disc_mode script =
+  let ic = open_in script in
+  let id = ref "" and dom = ref [] and rc = ref [] and sl = ref [] and evs = ref [] in
+  let ns l = List.map (fun x -> n_of_int (int_of_string x)) l in
+  (try while true do
+     let l = String.trim (input_line ic) in
+     match String.split_on_char ' ' l |> List.filter (fun x -> x <> "") with
+     | ["case"; i] -> id := i; dom := []; rc := []; sl := []; evs := []
+     | "dom" :: r -> dom := !dom @ ns r
+     | ["rc"; h; v] -> rc := (n_of_int (int_of_string h), n_of_int (int_of_string v)) :: !rc
+     | "sl" :: i :: t -> sl := (n_of_int (int_of_string i), ns t) :: !sl
+     | ["R"; h; v] -> evs := SetRc (n_of_int (int_of_string h), n_of_int (int_of_string v)) :: !evs
+     | "S" :: i :: t -> evs := SetSlot (n_of_int (int_of_string i), ns t) :: !evs
+     | ["Y"] -> evs := Sync :: !evs
+     | ["end"] ->
+         let s = { rcl = !rc; sll = !sl } in
+         Printf.printf "%s disc=%d\n%!" !id (if disciplined !dom s (List.rev !evs) then 1 else 0)
+     | _ -> ()
+   done with End_of_file -> ());
+  close_in ic
+
 let () =
   match Array.to_list Sys.argv with
   | [_; "check"; lst] ->
@@ -250,6 +273,7 @@ let () =
       close_in ic
   | [_; "map"; img] -> map_one img
   | [_; "dev"; script] -> dev_mode script
+  | [_; "disc"; script] -> disc_mode script
   | [_; "hdr"; lst] ->
       (* one hex buffer per line: the specification's reading of the header *)
       let ic = open_in lst in
